@@ -265,7 +265,21 @@ def gen_pit(rs, dim=None):
             b.call(b.name('bn'), {'t': 'bn1d', 'c': h})
             feats['has_bn'] = True
         b.relu(rs)
-    b.call(b.name('out'), {'t': 'linear', 'cin': b.c, 'cout': n_out, 'b': rs.chance(0.8)})
+    if rs.chance(0.12):
+        # the layer that produces the network output is also used at an earlier, internal call site
+        n_out = b.c if b.c <= 6 else n_out
+        if n_out != b.c:
+            b.call(b.name('fc'), {'t': 'linear', 'cin': b.c, 'cout': n_out, 'b': True})
+            b.c = n_out
+            b.relu(rs)
+        nm = b.name('out')
+        b.call(nm, {'t': 'linear', 'cin': n_out, 'cout': n_out, 'b': rs.chance(0.8)})
+        b.relu(rs)
+        b.recall(nm)
+        feats['reused'] = True
+        feats['reused_output_layer'] = True
+    else:
+        b.call(b.name('out'), {'t': 'linear', 'cin': b.c, 'cout': n_out, 'b': rs.chance(0.8)})
     in_shape = [cin] + [size] * dim
     return {'dim': dim, 'in_shape': in_shape, 'mods': b.mods, 'prog': b.prog, 'out': b.reg, 'n_out': n_out,
             'feats': feats}
